@@ -797,6 +797,41 @@ def item_urls(repo, out):
 # ---------------------------------------------------------------------------------------------------
 # The retry budget in force at every request site = f(store-level `retries` argument, per-call `retries=` override)
 
+_LOG_ROOTS = ('logger', 'logging', 'log', '_logger', 'warnings')
+
+
+def _is_logging(stmt):
+    """`logger.debug(...)`, `logging.info(...)`, `warnings.warn(...)`, `print(...)` as a statement of its own."""
+    if not (isinstance(stmt, ast.Expr) and isinstance(stmt.value, ast.Call)):
+        return False
+    f = stmt.value.func
+    while isinstance(f, ast.Attribute):
+        f = f.value
+    return isinstance(f, ast.Name) and (f.id in _LOG_ROOTS or f.id == 'print')
+
+
+def _clean(fn):
+    """Copy of a function without docstring and logging statements (anywhere in its body): what the templates of
+    item_retry_budget are matched against.  A block emptied that way keeps a `pass`."""
+    import copy
+    fn = copy.deepcopy(fn)
+
+    class Strip(ast.NodeTransformer):
+        def generic_visit(self, node):
+            super().generic_visit(node)
+            for field in ('body', 'orelse', 'finalbody'):
+                block = getattr(node, field, None)
+                if isinstance(block, list) and block and all(isinstance(x, ast.stmt) for x in block):
+                    kept = [x for x in block if not _is_logging(x)]
+                    if field == 'body' and not kept:
+                        kept = [ast.Pass()]
+                    setattr(node, field, kept)
+            return node
+    fn = Strip().visit(fn)
+    fn.body = _body(fn) or [ast.Pass()]
+    return ast.fix_missing_locations(fn)
+
+
 def _override_call(req):
     """The `_retry_object(retries, ...)` call of `retries = self.retries if retries is None else _retry_object(...)`."""
     hits = [s for s in _body(req) if isinstance(s, ast.Assign) and ast.unparse(s.targets[0]) == 'retries'
@@ -865,7 +900,7 @@ def item_retry_budget(repo, out):
     tree = _parse(repo, REL)
     cls = _class(tree, 'S3ChunkStore', REL)
     # _retry_object(retries, **defaults): a Retry object is kept, anything else becomes Retry(connect, read, **defaults)
-    ro = [ast.unparse(x) for x in _body(_func(tree, '_retry_object', REL))]
+    ro = [ast.unparse(x) for x in _clean(_func(tree, '_retry_object', REL)).body]
     if [a.arg for a in _func(tree, '_retry_object', REL).args.args] != ['retries'] or \
             _func(tree, '_retry_object', REL).args.kwarg is None or \
             _func(tree, '_retry_object', REL).args.kwarg.arg != 'defaults' or ro != [
